@@ -406,6 +406,10 @@ def c13_jobs(rnd, good, n):
         jobs.append(('READ(InFileName = d.csv, InFieldName = a, NewFieldName = %s)\nCOPYFIELD(InFieldName = a, NewFieldName = B)' % txt, "?", "odd-expression", {}))
         jobs.append(('READ(InFileName = d.csv, InFieldName = a)\nSUM(InFieldNames = [a], NewFieldName = %s)' % txt, "?", "odd-expression", {}))
     jobs.append(('SUM(InFieldNames = [a])', "?", "odd-expression", {}))
+    # output locations that cannot be written: the parent "folder" is a data file, or does not exist and cannot be created
+    for out in ("d.csv/out.csv", "d.csv/sub/out.csv", "/proc/nope/out.csv"):
+        jobs.append(('A = EEMSRead(InFileName = d.csv, InFieldName = a)\nW = EEMSWrite(OutFileName = %s, OutFieldNames = [A])' % out, "?", "odd-expression", {}))
+        jobs.append(('A = EEMSRead(InFileName = d.csv, InFieldName = a)\nP = PrintVars(InFieldNames = [A], OutFileName = %s)' % out, "?", "odd-expression", {}))
     for csvtxt in CSVS:
         jobs.append((CSV_MODEL, "?", "csv-fault", {"csv": csvtxt}))
     return jobs
@@ -479,6 +483,35 @@ def main():
                     fails.append({"sig": "C12:edited-model-not-rejected", "what": "after a successful run the command %s, which other commands use, was removed with `del program.commands[%r]`; running the edited model gave %s, executed %r, wrote %r (expected: ResultDoesNotExist before anything runs)" % (
                         eo["victim"], eo["victim"], eo["cls"] or "no error", eo["executed"][:5], eo["new_files"]),
                         "replay": {"source": src, "csv": extra.get("csv", base_csv), "history": ["run()", "del program.commands[%r]" % eo["victim"], "run()"]}})
+        if kind == "valid-model" and obs["cls"] is None and prop == "C12" and rnd.random() < 0.4:
+            # a command the loader rejects (a required parameter missing, an undeclared one given) is not part of the program: the
+            # caller catches the error and runs the program it had
+            try:
+                p3 = Program.from_source(src, libraries=LIBS, working_dir=wd)
+                before_names = list(p3.commands)
+                bad_args = rnd.choice([{}, {"InFieldNames": [before_names[0]], "Bogus": 1}])
+                rejected = None
+                try:
+                    p3.add_command(lib["Sum"], "Bad", bad_args)
+                except MPilotError as ex:
+                    rejected = type(ex).__name__
+                del LOG[:]
+                late = None
+                try:
+                    p3.run()
+                except BaseException as ex:
+                    late = type(ex).__name__
+                dist["rejected_add_command_then_run"] = dist.get("rejected_add_command_then_run", 0) + 1
+                evaluations += 1
+                if rejected not in ("MissingParameters", "NoSuchParameter") or list(p3.commands) != before_names or late is not None:
+                    fails.append({"sig": "C12:rejected-command-kept", "what": "add_command(Sum, 'Bad', %r) was %s; afterwards the program holds %r and run() gave %s (expected: rejected, program unchanged, run succeeds)" % (
+                        bad_args, "rejected with " + rejected if rejected else "accepted", [x for x in p3.commands if x not in before_names], late or "success"),
+                        "replay": {"source": src, "csv": extra.get("csv", base_csv), "history": ["from_source", "add_command(Sum, 'Bad', %r) -> error caught" % bad_args, "run()"]}})
+            except MPilotError:
+                pass
+            for f in sorted(listing(wd), key=len, reverse=True):
+                if f not in ("d.csv", "data.csv"):
+                    (os.rmdir if f.endswith("/") else os.remove)(os.path.join(wd, f))
         if kind == "valid-model" and obs["cls"] is None and prop == "C12" and "data.csv" in src and rnd.random() < 0.4:
             # the same model reading a copy of the table: run while the copy exists, then again after the copy has been deleted
             src2 = src.replace("data.csv", "gone.csv", 1)
@@ -574,6 +607,26 @@ def main():
                                   "replay": {"built": "Program.add_command", "shape": shape, "note": "A and B are EEMSRead commands of another Program object"}})
             except MPilotError:
                 pass
+    # ---------- C13: an empty working directory (the command-line tool started next to the command file) ----------
+    if prop == "C13":
+        here = os.getcwd()
+        os.chdir(wd)
+        try:
+            for src in ('A = EEMSRead(InFileName = d.csv, InFieldName = a)\nW = EEMSWrite(OutFileName = out_here.csv, OutFieldNames = [A])',
+                        'A = EEMSRead(InFileName = d.csv, InFieldName = a)\nP = PrintVars(InFieldNames = [A], OutFileName = vars_here.txt)'):
+                esc = None
+                try:
+                    Program.from_source(src, libraries=LIBS, working_dir="").run()
+                except MPilotError:
+                    pass
+                except BaseException as ex:
+                    esc = ex
+                evaluations += 1
+                if esc is not None:
+                    fails.append({"sig": "C13:escape:%s" % type(esc).__name__, "what": "with working_dir='' (the tool started in the model's folder) running the model let %s escape: %s" % (type(esc).__name__, str(esc)[:120]),
+                                  "replay": {"source": src, "working_dir": ""}})
+        finally:
+            os.chdir(here)
     # ---------- C13: the command-line tool ----------
     if prop == "C13":
         cli = "/venv/bin/mpilot"
